@@ -243,6 +243,61 @@ static int c06_pointee(struct context_data *ctx, const char *ctor, void *ptr, ui
 	return 1;
 }
 
+/* ---- poisoning ----------------------------------------------------------
+ * The Lean model (Xmp.Reset.LoadResets / StartResets, printed by drv_c06) says which members a
+ * load, resp. xmp_start_player, re-initialises without looking at them.  The file named by
+ * $C06_POISON lists them (`load <ctor>` / `start <ctor>` lines); c06_poison() overwrites every
+ * element of those (non-pointer) members of a context with a sentinel. */
+#define C06_MAXPOISON 200
+static const struct c06_leaf *c06_poison_set[2][C06_MAXPOISON];
+static int c06_poison_n[2] = { 0, 0 };
+
+static void c06_poison_init(void)
+{
+	const char *path = getenv("C06_POISON");
+	char line[256], what[16], ctor[128];
+	FILE *f;
+	int i;
+	if (!path || !(f = fopen(path, "r")))
+		return;
+	while (fgets(line, sizeof(line), f)) {
+		int w;
+		if (sscanf(line, "%15s %127s", what, ctor) != 2)
+			continue;
+		w = !strcmp(what, "load") ? 0 : !strcmp(what, "start") ? 1 : -1;
+		if (w < 0)
+			continue;
+		for (i = 0; c06_ctx_leaves[i].path; i++) {
+			if (!strcmp(c06_ctx_leaves[i].ctor, ctor) && c06_ctx_leaves[i].kind != K_PTR
+			    && c06_poison_n[w] < C06_MAXPOISON)
+				c06_poison_set[w][c06_poison_n[w]++] = &c06_ctx_leaves[i];
+		}
+	}
+	fclose(f);
+}
+
+/* which: 0 = before a load (context UNLOADED), 1 = before xmp_start_player (context LOADED) */
+static int c06_poison(struct context_data *ctx, int which)
+{
+	unsigned char *base = (unsigned char *)ctx;
+	int i, j, k;
+	for (i = 0; i < c06_poison_n[which]; i++) {
+		const struct c06_leaf *l = c06_poison_set[which][i];
+		for (j = 0; j < l->outer_n; j++) {
+			for (k = 0; k < l->count; k++) {
+				unsigned char *q = base + l->off + (size_t)j * l->outer_stride + (size_t)k * l->esize;
+				if (l->kind == K_F64) { double d = 23130.5; memcpy(q, &d, 8); }
+				else if (l->kind == K_F32) { float d = 23130.5f; memcpy(q, &d, 4); }
+				else if (l->esize == 1) { *q = 0x5a; }
+				else if (l->esize == 2) { int16_t v = 0x5a5a; memcpy(q, &v, 2); }
+				else if (l->esize == 4) { int32_t v = 0x5a5a; memcpy(q, &v, 4); }
+				else { int64_t v = 0x5a5a; memcpy(q, &v, 8); }
+			}
+		}
+	}
+	return c06_poison_n[which];
+}
+
 static void c06_image_free(struct c06_image *im)
 {
 	int i;
